@@ -353,45 +353,87 @@ Definition pinv (c : list N) (st : pstate) : Prop :=
   0 <= p_start st /\ p_rest st = skipn (Z.to_nat (p_start st)) c /\
   p_line st = count_lf (firstn (Z.to_nat (p_start st)) c).
 
-Lemma pipe_step_inv : forall c st r, pinv c st -> pinv c (pipe_step st r).
+Lemma pipe_step_inv : forall c st r p, pinv c st -> p_start st <= p ->
+  pinv c (pipe_step st (r, p)) /\ p_start (pipe_step st (r, p)) <= p.
 Proof.
-  intros c st r (A & B & D). unfold pipe_step. unfold bufSize.
-  destruct (Z.leb_spec 16384 (r - p_start st)) as [G|G]; [|repeat split; assumption].
-  unfold pinv. cbn [p_start p_rest p_line]. set (n := r - p_start st) in *.
+  intros c st r p (A & B & D) Hp. unfold pipe_step. unfold bufSize.
+  destruct (Z.leb_spec 16384 (r - p_start st)) as [G|G]; [|split; [repeat split; assumption|assumption]].
+  unfold pinv. cbn [p_start p_rest p_line]. set (n := p - p_start st) in *.
   replace (Z.to_nat (p_start st + n)) with (Z.to_nat (p_start st) + Z.to_nat n)%nat by lia.
-  split; [lia|]. split.
+  split; [|lia]. split; [lia|]. split.
   - unfold zdrop. rewrite B, skipn_add. reflexivity.
   - unfold ztake. rewrite B, D, firstn_add, count_lf_app. reflexivity.
 Qed.
 
-Lemma pipe_run_inv : forall c rs, pinv c (pipe_run c rs).
+Lemma pipe_fold_inv : forall c E steps st lo_r lo_p, pinv c st -> p_start st <= lo_p -> lo_p < E ->
+  steps_okb lo_r lo_p E steps = true ->
+  pinv c (fold_left pipe_step steps st) /\ p_start (fold_left pipe_step steps st) < E.
 Proof.
-  intros c rs. unfold pipe_run.
-  assert (G : forall rs st, pinv c st -> pinv c (fold_left pipe_step rs st)).
-  { induction rs0 as [|r rs0 IH]; intros st H; [exact H|]. cbn [fold_left]. apply IH. now apply pipe_step_inv. }
-  apply G. repeat split; cbn; lia.
+  induction steps as [|[r p] t IH]; intros st lo_r lo_p I Hs Hl Hk; [cbn; split; [assumption|lia]|].
+  cbn [steps_okb] in Hk. repeat (apply andb_true_iff in Hk; destruct Hk as [Hk ?]).
+  apply Z.leb_le in H1. apply Z.ltb_lt in H0.
+  destruct (pipe_step_inv c st r p I ltac:(lia)) as [I' S'].
+  cbn [fold_left]. apply (IH _ r p); assumption.
 Qed.
 
-Theorem pipe_window_kept : forall c ends rs rerr E,
-  chunking_ok c ends rs rerr E -> crlf_only c = true ->
-  let start := p_start (pipe_run c rs) in
-  start < E ->
-  let '(ex, line, col) := report_of swidth (pipe_report c (rs ++ [rerr]) (Some E)) in
-  line = spec_line c (Z.to_nat (E - 1)) /\
+Lemma pipe_run_inv : forall c steps rerr E, chunking_ok c steps rerr E ->
+  pinv c (pipe_run c steps) /\ p_start (pipe_run c steps) < E /\ E <= rerr <= zlen c /\ 1 <= E.
+Proof.
+  intros c steps rerr E Hc. unfold chunking_ok, chunking_okb in Hc.
+  repeat (apply andb_true_iff in Hc; destruct Hc as [Hc ?]).
+  apply Z.leb_le in H, H0, H1.
+  destruct (pipe_fold_inv c E steps {| p_rest := c; p_start := 0; p_line := 0 |} 0 0) as [I S];
+    try assumption; try lia.
+  - repeat split; cbn; lia.
+  - unfold pipe_run. repeat split; try assumption; lia.
+Qed.
+
+(* for EVERY behaviour of the decoder: the offending byte is never dropped, the line number is right, the
+   excerpt and caret are getLineByOffset's on the kept part of the input *)
+Theorem pipe_window_kept : forall c steps rerr E,
+  chunking_ok c steps rerr E -> crlf_only c = true ->
+  let start := p_start (pipe_run c steps) in
+  let '(ex, line, col) := report_of swidth (pipe_report c steps rerr (Some E)) in
+  0 <= start < E /\ line = spec_line c (Z.to_nat (E - 1)) /\
   (ex, col) = (let '(ex', _, col') := getLineByOffset swidth (ztake (rerr - start) (zdrop start c)) (E - start)
                in (ex', col')).
 Proof.
-  intros c ends rs rerr E Hc C start Hs.
-  unfold chunking_ok, chunking_okb in Hc.
-  repeat (apply andb_true_iff in Hc; destruct Hc as [Hc ?]).
-  apply Z.leb_le in H, H0, H1. unfold zlen in H0.
-  unfold pipe_report. rewrite removelast_last, last_last. fold start.
-  destruct (pipe_run_inv c rs) as (I1 & I2 & I3). fold start in I1, I2, I3.
+  intros c steps rerr E Hc C start.
+  destruct (pipe_run_inv c steps rerr E Hc) as ((I1 & I2 & I3) & Hs & Hr & HE). fold start in I1, I2, I3, Hs.
+  unfold zlen in Hr. unfold pipe_report. fold start.
   unfold report_of. rewrite I2, I3. unfold zdrop.
   set (s := Z.to_nat start) in *. set (o := Z.to_nat (E - 1)).
   pose proof (glbo_window_line c s (Z.to_nat (rerr - start)) o ltac:(lia) ltac:(lia) ltac:(lia) C) as WL.
   replace (Z.of_nat (o - s) + 1) with (E - start) in WL by lia. unfold ztake.
   destruct (getLineByOffset swidth (firstn (Z.to_nat (rerr - start)) (skipn s c)) (E - start)) as [[ex l] col].
-  cbn [fst snd] in WL. split; [lia|reflexivity].
+  cbn [fst snd] in WL. split; [lia|]. split; [lia|reflexivity].
+Qed.
+
+(* ... and it is exactly the report for the whole input when the window leaves enough room: it starts at
+   the beginning or >= 52 bytes before the offending byte, and >= 64 bytes after the offending byte have been
+   read (or the input ends before that) *)
+Theorem pipe_window_exact : forall c steps rerr E,
+  chunking_ok c steps rerr E -> crlf_only c = true ->
+  let start := p_start (pipe_run c steps) in
+  (start = 0 \/ start + 52 <= E - 1) -> (E - 1 + 64 <= rerr \/ rerr = zlen c) ->
+  report_of swidth (pipe_report c steps rerr (Some E)) = getLineByOffset swidth c E.
+Proof.
+  intros c steps rerr E Hc C start Hd Hm.
+  destruct (pipe_run_inv c steps rerr E Hc) as ((I1 & I2 & I3) & Hs & Hr & HE). fold start in I1, I2, I3, Hs.
+  unfold zlen in Hr, Hm. unfold pipe_report. fold start.
+  unfold report_of. rewrite I2, I3.
+  set (s := Z.to_nat start) in *. set (o := Z.to_nat (E - 1)).
+  assert (EO : E = Z.of_nat o + 1) by (unfold o; lia).
+  replace (E - start) with (Z.of_nat (o - s) + 1) by lia. unfold ztake.
+  set (m := Z.to_nat (rerr - start)).
+  assert (W : firstn m (skipn s c) = firstn (m + (o - s + 64)) (skipn s c) \/ (o - s + 64 <= m)%nat).
+  { destruct Hm as [Hm|Hm]; [right; unfold m; lia|left].
+    rewrite !firstn_all2; [reflexivity| |]; rewrite skipn_length; unfold m; lia. }
+  assert (G : forall m', (o - s + 64 <= m')%nat ->
+     (let '(linestr, line, column) := getLineByOffset swidth (firstn m' (skipn s c)) (Z.of_nat (o - s) + 1) in
+      (linestr, line + count_lf (firstn s c), column)) = getLineByOffset swidth c E).
+  { intros m' Hm'. rewrite glbo_window; try assumption; try lia.
+    rewrite EO. destruct (getLineByOffset swidth c (Z.of_nat o + 1)) as [[ls L] col]. f_equal. f_equal. lia. }
+  destruct W as [W|W]; [rewrite W|]; apply G; lia.
 Qed.
 End WindowReports.
